@@ -63,6 +63,7 @@ Visible(e, t) ==
   \/ e.ev = "load" /\ At(t, "lockget") /\ KeyIs(t, e) /\ cache[Key(Top(t))] = e.fac /\ LockGet(t)
   \/ e.ev = "acquired" /\ Acquire(t)
   \/ e.ev = "transform_begin" /\ TransformBegin(t)
+  \/ e.ev = "parse_fail" /\ ParseFail(t)
   \/ e.ev = "transform_fail" /\ TransformFail(t)
   \/ e.ev = "transform_ok" /\ TransformOk(t)
   \/ e.ev = "store" /\ At(t, "store") /\ KeyIs(t, e) /\ Top(t).fac = e.fac /\ Store(t)
